@@ -279,6 +279,11 @@ class ChartRun(object):
       chart.recall()
     elif op == 'scribble':
       chart.scribble(f['text'])
+    elif op == 'stop':
+      # an active object stops itself from one of its handlers (the last step of the history)
+      if hasattr(chart, 'stop') and self.host in ('ao', 'factory'):
+        chart.stop()
+        self.sim.probe('stop_called_from_a_handler')
 
   # ---- construction
   def make(self):
